@@ -18,6 +18,8 @@ theorem Mono.unbonded {s s' : St} (m : Mono s s') {a : Addr} (h : Unbonded s a) 
 theorem abruptRemoveProposer_unbonds {s : St} {ra : Nat} {r : Rollapp} {a : Addr} (h : RolesCore s)
     (hg : getRa s ra = some r) (hp : r.proposer = some a) : Unbonded (abruptRemoveProposer s ra) a := by
   obtain ⟨q0, hq0, _⟩ := h.prop r (getRa_mem hg) a hp
+  have hqa : q0.addr = a := getSeq_addr hq0
+  subst hqa
   unfold abruptRemoveProposer
   rw [hg]
   dsimp only
@@ -25,13 +27,11 @@ theorem abruptRemoveProposer_unbonds {s : St} {ra : Nat} {r : Rollapp} {a : Addr
   dsimp only
   rw [hq0]
   dsimp only
-  have hg1 : getSeq (removeFromNoticeQueue s q0) a = some q0 := by
+  have hg1 : getSeq (removeFromNoticeQueue s q0) q0.addr = some q0 := by
     rw [getSeq_congr (removeFromNoticeQueue_seqs s q0).1]; exact hq0
   refine ⟨{ q0 with bonded := false }, ?_, rfl⟩
   rw [getSeq_congr (setProposer_seqs _ _ _).1]
-  have := getSeq_setSeq_same' (q := { q0 with bonded := false }) hg1 rfl
-  rw [show ({ q0 with bonded := false } : Seq).addr = a from (getSeq_addr hq0 : q0.addr = a)] at this
-  exact this
+  exact getSeq_setSeq_same' (q := { q0 with bonded := false }) hg1 rfl
 
 theorem seqOnHardFork_unbonds {s : St} {ra : Nat} {r : Rollapp} {a : Addr} (h : RolesCore s)
     (hg : getRa s ra = some r) (hp : r.proposer = some a) : Unbonded (seqOnHardFork s ra) a := by
@@ -44,26 +44,28 @@ theorem seqOnHardFork_unbonds {s : St} {ra : Nat} {r : Rollapp} {a : Addr} (h : 
 theorem hardFork_unbonds {s s' : St} {ra lv : Nat} {r : Rollapp} {a : Addr} (h : RolesCore s)
     (e : hardFork s ra lv = .ok s') (hg : getRa s ra = some r) (hp : r.proposer = some a) : Unbonded s' a := by
   unfold hardFork at e
-  rw [hg] at e
-  dsimp only at e
   split at e
   · cases e
-  · split at e
+  · rename_i r1 hg1
+    rw [hg] at hg1; injection hg1 with hg1; subst hg1
+    split at e
     · cases e
     · split at e
       · cases e
-      · rename_i keep kst _
-        dsimp only at e
-        injection e with e; subst e
-        unfold resetClock
-        dsimp only
-        have f : Frame s (setRa { s with queue := removeIdxAbove s.queue ra keep,
-                                         seqH := pruneSeqHeights s.seqH (kst.creator :: (r.states.drop keep).map (·.creator)) kst.last,
-                                         lev := delEvent s.lev (forkedRollapp r keep kst).evH (forkedRollapp r keep kst).id }
-                                { forkedRollapp r keep kst with evH := 0, cdStart := s.h }) :=
-          Frame.of_setRa_eq (r0 := r) h.uniq hg (by rfl) (by rfl) (by rfl) (by rfl) (by rfl) (by rfl) (by rfl) (by rfl)
-        obtain ⟨r', hr', _, hp', _⟩ := f.ra_some hg
-        exact seqOnHardFork_unbonds (h.frame f) hr' (hp'.trans hp)
+      · split at e
+        · cases e
+        · rename_i keep kst _
+          dsimp only at e
+          injection e with e; subst e
+          unfold resetClock
+          dsimp only
+          have f : Frame s (setRa { s with queue := removeIdxAbove s.queue ra keep,
+                                           seqH := pruneSeqHeights s.seqH (kst.creator :: (r.states.drop keep).map (·.creator)) kst.last,
+                                           lev := delEvent s.lev (forkedRollapp r keep kst).evH (forkedRollapp r keep kst).id }
+                                  { forkedRollapp r keep kst with evH := 0, cdStart := s.h }) :=
+            Frame.of_setRa_eq (r0 := r) h.uniq hg (by rfl) (by rfl) (by rfl) (by rfl) (by rfl) (by rfl) (by rfl) (by rfl)
+          obtain ⟨r', hr', _, hp', _⟩ := f.ra_some hg
+          exact seqOnHardFork_unbonds (h.frame f) hr' (hp'.trans hp)
 
 theorem hardForkToLatest_unbonds {s s' : St} {ra : Nat} {r : Rollapp} {a : Addr} (h : RolesCore s)
     (e : hardForkToLatest s ra = .ok s') (hg : getRa s ra = some r) (hp : r.proposer = some a) : Unbonded s' a := by
@@ -213,7 +215,9 @@ theorem apply_removed_marked {s s' : St} {o : Op} {id : Nat} {r : Rollapp} {a : 
         apply hne
         unfold propOf
         have hid : id ≠ id' := by intro hh; rw [hh, hnone] at hg; cases hg
-        rw [getRa_insert_other (r := newRollapp id' owner mb) (by exact Ne.symm hid), hg, hp]; rfl
+        rw [getRa_insert_other (r := newRollapp id' owner mb) (by exact Ne.symm hid), hg]
+        show some r.proposer = some (some a)
+        rw [hp]
       · unfold propOf
         rw [getRa_insert_other (r := newRollapp id' owner mb) (by exact hc)]
   | bridge ra hh =>
@@ -245,7 +249,7 @@ theorem apply_removed_marked {s s' : St} {o : Op} {id : Nat} {r : Rollapp} {a : 
       · subst hc; rw [hps] at pn; cases pn
       · exact absurd ((pf id hc).trans hps) hne
   | kick a' =>
-    obtain ⟨k, r1, pa, _, hk1, _, hk2, hk3, _, _, _, pf, _⟩ := kick_p h e
+    obtain ⟨k, r1, pa, _, hk1, _, _, hk2, hk3, _, _, _, pf, _, _⟩ := kick_p h e
     obtain ⟨k', r2, pa', hk1', hk2', hk3', hub⟩ := kick_unbonds h e
     rw [hk1] at hk1'; injection hk1' with hk1'; subst hk1'
     rw [hk2] at hk2'; injection hk2' with hk2'; subst hk2'
